@@ -434,6 +434,13 @@ func (b *builder) elim(list []ast.Stmt, k []ast.Stmt, guards []guard, depth int)
 			out = append(out, nif)
 			return out
 		default:
+			if b.mode.consumer != nil && containsBranch(b.mode.consumer) {
+				switch s.(type) {
+				case *ast.ForStmt, *ast.RangeStmt, *ast.SwitchStmt, *ast.TypeSwitchStmt, *ast.SelectStmt:
+					b.fail = "the test of the results contains break or continue and would move into a loop or switch of the helper"
+					return nil
+				}
+			}
 			if !b.anyExit([]ast.Stmt{s}, nil) {
 				out = append(out, b.termOnlyStmt(s, nil))
 				guards = invalidate(guards, s)
@@ -702,6 +709,21 @@ func negateCond(e ast.Expr) ast.Expr {
 		neg := map[token.Token]token.Token{token.EQL: token.NEQ, token.NEQ: token.EQL}
 		if op, ok := neg[x.Op]; ok {
 			return &ast.BinaryExpr{X: x.X, OpPos: x.OpPos, Op: op, Y: x.Y}
+		}
+		// De Morgan (both operands are evaluated in the same order and under the same short-circuit condition)
+		if x.Op == token.LAND || x.Op == token.LOR {
+			op := token.LOR
+			if x.Op == token.LOR {
+				op = token.LAND
+			}
+			l, r := negateCond(x.X), negateCond(x.Y)
+			par := func(e ast.Expr) ast.Expr {
+				if b, ok := e.(*ast.BinaryExpr); ok && (b.Op == token.LAND || b.Op == token.LOR) && b.Op != op {
+					return &ast.ParenExpr{X: e}
+				}
+				return e
+			}
+			return &ast.BinaryExpr{X: par(l), OpPos: x.OpPos, Op: op, Y: par(r)}
 		}
 	}
 	return &ast.UnaryExpr{Op: token.NOT, X: &ast.ParenExpr{X: e}}
